@@ -566,7 +566,16 @@ class Writer(GenericWriter):
             self.validate_fn(
                 record, self.schema, self._named_schemas, "", True, self.options
             )
-        write_data(self.io, record, self.schema, self._named_schemas, "", self.options)
+        start = self.io._fo.tell()
+        try:
+            write_data(
+                self.io, record, self.schema, self._named_schemas, "", self.options
+            )
+        except Exception:
+            # Drop whatever part of the record was encoded before the failure
+            self.io._fo.seek(start, SEEK_SET)
+            self.io._fo.truncate(start)
+            raise
         self.block_count += 1
         if self.io._fo.tell() >= self.sync_interval:
             self.dump()
